@@ -9,7 +9,7 @@ from checks.common import swarm, make_exc
 ID = 'C09'
 LEVEL = 'exploration'
 NEEDS = ('threads',)
-QUICK = dict(runs=8000, wall=85)
+QUICK = dict(runs=24000, wall=85)
 THOROUGH = dict(runs=500000, wall=1500)
 RULE = ('Worker.run driven directly: 1-3 competing worker threads on one _SimpleThreadQueue, batch_size in {0,1,2,3,5}, batch_wait_time in '
         '{0,10ms,1s}, optional preprocess rejecting a subset, optional in-worker thread pool (num_stream_threads=2); the driver puts '
